@@ -247,12 +247,27 @@ func (c *Config) SetString(name string, idx int, value string, opts ...Option) e
 //
 // SetChild supports the options: PathSep, MetaData
 func (c *Config) SetChild(name string, idx int, value *Config, opts ...Option) error {
-	if value != nil && !value.ctx.empty() {
+	if value == nil {
+		return raiseNil(ErrNilConfig)
+	}
+	if !value.ctx.empty() || value.contains(c) {
 		// value already has a place in a configuration tree: its settings know that
-		// place as their path and parent. It is attached here as a copy.
+		// place as their path and parent. It is attached here as a copy. So is a
+		// configuration that c is part of (c itself or an ancestor of c): attaching
+		// it in place would make it its own descendant.
 		value = cfgSub{c: value}.cpy(context{}).(cfgSub).c
 	}
 	return c.setField(name, idx, cfgSub{c: value}, opts)
+}
+
+// contains reports whether other is c or lies below c.
+func (c *Config) contains(other *Config) bool {
+	for p := other; p != nil; p = p.Parent() {
+		if p == c || p.fields == c.fields {
+			return true
+		}
+	}
+	return false
 }
 
 // getField supports the options: PathSep, Env, Resolve, ResolveEnv
